@@ -80,7 +80,7 @@ def run(replay=None):
     from harness.common import rng
     rnd = rng('c15')
     thorough = tier() == 'thorough'
-    asts, stats = accepted(thorough, limit=None if thorough else 12000)
+    asts, stats = accepted(thorough, limit=60000 if thorough else 12000)
     rep.add_tlc(stats)
     fams, st2 = accepted_families(['slots', 'quants', 'funs', 'incl', 'alias'], cap=None if thorough else 500, salt='c15f')
     rep.add_tlc(st2)
